@@ -508,6 +508,25 @@ def load_cases(run, tier, seed):
         run.notes["depth2_trees_from_simulation"] = len(seen)
     finally:
         tlc.cleanup(res)
+    if tier == "thorough":
+        # depth 3 (the statement's bound) by simulation; values of deep products may leave TLC's 32-bit integers, in which case
+        # the sampling stops early and the trees printed so far are used
+        res = tlc.run("PotExpr", "PotExpr_deep3.cfg", workers=1, simulate="num=4000", depth=6, seed=seed + 23, timeout=3000, keep=True, tolerate=True)
+        try:
+            if res.violated:
+                run.machinery("TLC (depth-3 simulation): %s violated\n%s" % (res.violated, res.stdout[-1500:]))
+                return []
+            run.add_tlc("PotExpr_deep3(simulate num=4000)", res, exhaustive=False)
+            n3 = 0
+            for c in parse_printed(res.stdout):
+                k = json.dumps(c["tree"], sort_keys=True)
+                if k not in seen:
+                    seen.add(k)
+                    cases.append(c)
+                    n3 += 1
+            run.notes["depth3_simulation"] = dict(new_trees=n3, stopped_early=bool(res.error), reason=(res.error or "")[-300:])
+        finally:
+            tlc.cleanup(res)
     return cases
 
 
